@@ -60,7 +60,7 @@ def wfCommPat (s : String) : Bool :=
   | some _ => true
   | none =>
       if hasDigitColonDigit s.toList then wfPat ("^" ++ s ++ "$")
-      else if (wellKnownIdx s.toLower).isSome then true
+      else if (wellKnownCommunity s.toLower).isSome then true
       else wfPat s
 
 def wfElem (k : SetKind) : Elem → Bool
